@@ -12,3 +12,48 @@ OPAQUE_MODELS = {}
 
 def install(eng):
     pass
+
+
+# ---------------------------------------------------------------------------------------------
+# msgpack: dumps / loads as a structure-preserving round trip (assumed contract of the dependency,
+# conformance-tested on the Hash grammar by pyvc.conformance 'msgpack')
+# ---------------------------------------------------------------------------------------------
+
+def _deep_copy(eng, st, v, lists_to_tuples):
+    if isinstance(v, R):
+        o = st.obj(v)
+        if o.kind == "dict":
+            d = st.alloc(HObj("dict", "dict"))
+            st.obj(d).items = [[k, _deep_copy(eng, st, val, lists_to_tuples), pres] for k, val, pres in o.items]
+            return d
+        if o.kind == "list":
+            items = [_deep_copy(eng, st, x, lists_to_tuples) for x in o.items]
+            if lists_to_tuples:
+                return T(items)
+            return st.alloc(HObj("list", "list", items=items))
+        raise OutOfSubset("msgpack of object kind %s" % o.kind)
+    if isinstance(v, T):
+        return T([_deep_copy(eng, st, x, lists_to_tuples) for x in v.items])
+    if isinstance(v, U):
+        return mk_union([(g, _deep_copy(eng, st, b, lists_to_tuples)) for g, b in v.alts])
+    return v
+
+
+def _msgpack_dumps(eng, st, recv, args, kwargs):
+    """msgpack.dumps(x, use_bin_type=True): an opaque bytes token that remembers x (may raise TypeError for
+    unserialisable values -- not modelled: the sync state only stores the Hash grammar)"""
+    snap = _deep_copy(eng, st, args[0], False)
+    tok = st.alloc(HObj("opaque", None, fields={"packed": snap}, meta={"tag": "packed"}))
+    st.note("msgpack.dumps/loads: structure-preserving round trip on the Hash grammar (tuples stay tuples, lists become tuples on load)")
+    return eng.ok(st, tok)
+
+
+def _msgpack_loads(eng, st, recv, args, kwargs):
+    tok = args[0]
+    if isinstance(tok, R) and st.obj(tok).meta.get("tag") == "packed":
+        return eng.ok(st, _deep_copy(eng, st, st.obj(tok).fields["packed"], True))
+    raise OutOfSubset("msgpack.loads of bytes that were not produced by msgpack.dumps in this lemma")
+
+
+B.BUILTIN_FUNCS["msgpack.dumps"] = _msgpack_dumps
+B.BUILTIN_FUNCS["msgpack.loads"] = _msgpack_loads
